@@ -31,8 +31,9 @@ CHECKS = {
                 text="All source programs up to 3 (thorough 4) instructions over a menu with literals in every register position, "
                      "array index and slice bound, every placement of up to two labels (consecutive, after the end, forward and "
                      "backward), both entry forms (text and ProtoSubroutine), all ordered macro definitions over prefix-related "
-                     "keys, argument brackets and the 11..16-register pressure family are assembled by the real assembler; the "
-                     "result is executed on the reference VM from a state where every register holds a distinct sentinel and "
+                     "keys, argument brackets, the 11..16-register pressure family and every {register, literal} combination of the operand "
+                     "positions of 20 instruction templates are assembled by the real assembler; the "
+                     "result is encoded, decoded and executed on the reference VM from a state where every register holds a distinct sentinel and "
                      "compared with the source-level interpretation (named registers, arrays, shared memory, fault class, "
                      "source-pc trace) and re-derived structurally (scratch registers fresh and distinct, targets = first emitted "
                      "instruction of the labelled source instruction).",
@@ -208,7 +209,7 @@ CHECKS = {
                 note="operands in range; 32-bit integers on the boundary lattice",
                 ref="3/C17"),
     "C18": dict(cat="model_checking", tech="stateless schedule exploration of the implementation: CHESS-style iterative context bounding on real threads (sys.settrace baton scheduler, scheduler-aware lock and sleep, fair scheduling for 3 threads, audited preemption-placement reduction)",
-                text="For 12 scenarios of 2-3 real ThreadSocket / StorageThreadSocket / broadcast-channel endpoints (<= 4 sends or receives each; "
+                text="For 14 scenarios (plain, structured and silent send/receive, blocking and non-blocking, message values incl. the empty string) of 2-3 real ThreadSocket / StorageThreadSocket / broadcast-channel endpoints (<= 4 sends or receives each; "
                      "plain, structured, callback, non-blocking, two socket ids, close while draining, either side first) every thread "
                      "schedule with <= 2 (quick) / <= 3 (thorough) preemptions at statement granularity in socket_hub.py, "
                      "thread_socket/socket.py and broadcast_channel.py is executed on the real code. Per direction and socket id the "
